@@ -8,7 +8,7 @@ package compiler
 // package-level IR constants / runtime function handles: assigned once during set-up, never afterwards
 immutable g:compiler.zero g:compiler.ddp_runtime_error_irfun g:compiler.ddpint
 // the AST is not rewritten during code generation
-immutable ast.FuncDecl ast.FuncCall []ast.ParameterInfo ast.BinaryExpr ast.Indexing ast.UnaryExpr ast.TernaryExpr ast.AssignStmt ast.Module.Ast ast.Ast.Faulty compiler.compiler.ddpModule
+immutable ast.FuncDecl ast.FuncCall ast.CastExpr []ast.ParameterInfo ast.BinaryExpr ast.Indexing ast.UnaryExpr ast.TernaryExpr ast.AssignStmt ast.Module.Ast ast.Ast.Faulty compiler.compiler.ddpModule
 // the compiler's type descriptors and IR constants are created once during set-up
 immutable compiler.compiler.ddpinttyp compiler.compiler.ddpfloattyp compiler.compiler.ddpbytetyp compiler.compiler.ddpbooltyp compiler.compiler.ddpchartyp
 immutable g:compiler.zerof g:compiler.all_ones g:compiler.all_ones8 g:compiler.ddpfloat g:compiler.ddpbyte g:compiler.ddpbool g:compiler.ddpchar g:compiler.zero8
@@ -134,6 +134,8 @@ func (*compiler).evaluate
   modifies *
   ensures 1 <= tyClassOf(expr) && tyClassOf(expr) <= 5 ==>
             result1 == descr(c, tyClassOf(expr)) && ir.irty(result0) == irOfClass(tyClassOf(expr)) && !ir.isIntConst(result0)
+  ensures tyClassOf(expr) == 6 ==> result1 == box(c.ddpstring)
+  ensures tyClassOf(expr) == 7 ==> result1 == box(c.ddpany)
   // evaluate returns the visitor's result registers
   ensures c.latestReturn == result0 && c.latestReturnType == result1
 
@@ -259,6 +261,13 @@ spec isStructT(t ddptypes.Type) bool := is[*ddptypes.StructType](ddptypes.tnorm(
 func (*compiler).toIrType [C18]
   requires c != nil
   modifies nothing
+  uses ddptypes.L_prim_normal
+  // (for callers that pass a primitive type constant: the descriptor, without going through the normal form)
+  ensures ddpType == box(ddptypes.ZAHL) ==> result == box(c.ddpinttyp)
+  ensures ddpType == box(ddptypes.KOMMAZAHL) ==> result == box(c.ddpfloattyp)
+  ensures ddpType == box(ddptypes.BYTE) ==> result == box(c.ddpbytetyp)
+  ensures ddpType == box(ddptypes.WAHRHEITSWERT) ==> result == box(c.ddpbooltyp)
+  ensures ddpType == box(ddptypes.BUCHSTABE) ==> result == box(c.ddpchartyp)
   ensures !isListT(ddpType) && 1 <= tcls(ddpType) && tcls(ddpType) <= 5 ==> result == descr(c, tcls(ddpType))
   ensures !isListT(ddpType) && tcls(ddpType) == 6 ==> result == box(c.ddpstring)
   ensures !isListT(ddpType) && tcls(ddpType) == 7 ==> result == box(c.ddpany)
@@ -487,4 +496,51 @@ func (*compiler).VisitFuncCall [C18]
   loop 1 invariant rangeindex1 < len(e.Func.Parameters) && reached(LC) && ast.IsExternFunc(e.Func)
   loop 1 invariant $ncalls == at(LC, $ncalls) + 1 +
               count(k, 0, rangeindex1 + 1, !e.Func.Parameters[k].Type.IsReference && nonPrimT(e.Func.Parameters[k].Type.Type))
+
+// ================= C02/C01: explicit conversions between the primitive classes =================
+// which (source, target) pairs the type checker admits (package typechecker, VisitCastExpr); 7 = Variable
+spec castOK(s int, k int) bool :=
+  s == 7 ||
+  (k == 1 ? (1 <= s && s <= 5) :
+  (k == 2 ? (s == 1 || s == 2 || s == 3) :
+  (k == 3 ? (s == 1 || s == 2 || s == 3) :
+  (k == 4 ? (s == 1 || s == 4 || s == 3) :
+  (k == 5 ? (s == 1 || s == 5 || s == 3) : false)))))
+// ASSUMED set-up facts: each primitive descriptor carries the IR type of its class; the shared IR types have their classes
+spec wfDescr(c *compiler) bool :=
+     ir.irtyOf(valOf(box(c.ddpinttyp))) == 1 && ir.irtyOf(valOf(box(c.ddpfloattyp))) == 2 && ir.irtyOf(valOf(box(c.ddpbytetyp))) == 3
+  && ir.irtyOf(valOf(box(c.ddpbooltyp))) == 4 && ir.irtyOf(valOf(box(c.ddpchartyp))) == 5
+  && ir.irty(zero8) == 3 && ir.isIntConst(zero8)
+// TRUSTED helpers of the Variable representation (each a getelementptr/bitcast/load sequence)
+func (*compiler).loadSmallAnyValue
+  trusted
+  modifies nothing
+  ensures ir.irty(result) == ir.irtyOf(typ) && !ir.isIntConst(result)
+func (*compiler).compareAnyType
+  trusted
+  modifies nothing
+func (*compiler).runtime_error
+  trusted
+  modifies nothing
+func (*compiler).mangledNameType
+  trusted
+  modifies nothing
+func (ddpIrType).VTable
+  pure
+  trusted
+
+// a conversion the type checker admits is lowered to a value of the target class: right descriptor, right IR type,
+// every conversion instruction gets operands of the widths it needs (and C01: of the signedness it needs)
+func (*compiler).VisitCastExpr [C02, C01]
+  requires wfCompiler(c) && wfDescr(c) && e != nil && e.OverloadedBy == nil && c.cbb != nil && c.cf != nil
+  requires 1 <= tcls(e.TargetType) && tcls(e.TargetType) <= 5 && !isListT(e.TargetType)
+  // (the same fact in the words of the code: the target is not a list type)
+  requires !ddptypes.IsList(ddptypes.TrueUnderlying(e.TargetType))
+  requires castOK(tyClassOf(e.Lhs), tcls(e.TargetType)) && (tyClassOf(e.Lhs) == 7 || (1 <= tyClassOf(e.Lhs) && tyClassOf(e.Lhs) <= 5))
+  uses ddptypes.L_prim_normal
+  cases tyClassOf(e.Lhs) in {1, 2, 3, 4, 5, 7}
+  cases ddptypes.TrueUnderlying(e.TargetType) in {box(ddptypes.ZAHL), box(ddptypes.KOMMAZAHL), box(ddptypes.BYTE), box(ddptypes.WAHRHEITSWERT), box(ddptypes.BUCHSTABE)}
+  nopanic
+  ensures c.latestReturnType == descr(c, tcls(e.TargetType))
+  ensures ir.irty(c.latestReturn) == tcls(e.TargetType)
 @*/
